@@ -937,7 +937,7 @@ func (in *Interp) call(fn *ssa.Function, args []Value, free []Value) Value {
 	if r, ok := in.intrinsic(fn, args); ok {
 		return r
 	}
-	if in.em.countOnly && !in.inInit && fn.Name() == "keccakF1600Bytes" && fn.Pkg != nil && strings.HasSuffix(fn.Pkg.Pkg.Path(), "/internal/strobe") {
+	if (in.em.countOnly || concreteInputs != nil) && !in.inInit && fn.Name() == "keccakF1600Bytes" && fn.Pkg != nil && strings.HasSuffix(fn.Pkg.Pkg.Path(), "/internal/strobe") {
 		// assembly build: the wrapper reinterprets the 200-byte state as 25 words through unsafe.Pointer and calls the
 		// assembly permutation; summarised like any other assembly routine (see asmSummary)
 		if k, ok := fn.Pkg.Members["keccakF1600"].(*ssa.Function); ok && k.Blocks == nil {
@@ -992,7 +992,7 @@ func (in *Interp) call(fn *ssa.Function, args []Value, free []Value) Value {
 		if in.inInit {
 			return Unknown{"external " + fn.String()}
 		}
-		if in.em.countOnly && fn.Pkg != nil && strings.HasPrefix(fn.Pkg.Pkg.Path(), modulePath) {
+		if (in.em.countOnly || concreteInputs != nil) && fn.Pkg != nil && strings.HasPrefix(fn.Pkg.Pkg.Path(), modulePath) {
 			return in.asmSummary(fn, args)
 		}
 		fail("call to function without body: %s", fn.String())
@@ -1364,7 +1364,7 @@ func (in *Interp) asmSummary(fn *ssa.Function, args []Value) Value {
 		if n == 0 {
 			fail("assembly routine %s reaches a non-integer leaf (%s)", fn.String(), l.typ)
 		}
-		if allConc && in.concrete != nil {
+		if allConc && concreteInputs != nil {
 			d := sha256.Sum256(append(append([]byte{}, seed...), byte(i), byte(i>>8), byte(i>>16)))
 			l.val = Conc{norm(new(big.Int).SetBytes(d[:8]), n)}
 		} else {
